@@ -23,15 +23,15 @@ pub fn dispatch(cmd: &str, args: &Args) -> Option<i32> {
 }
 
 /// Names in the numbering of specs/TexVM.tla (PrimNames, then the eight user names).
-pub const NAMES: [&str; 35] = [
+pub const NAMES: [&str; 37] = [
     "def", "gdef", "global", "let", "count", "countdef", "chardef", "advance", "multiply", "divide", "the", "relax",
     "expandafter", "noexpand", "iftrue", "iffalse", "ifnum", "ifodd", "ifcase", "or", "else", "fi", "globaldefs",
-    "long", "outer", "va", "vb", "vc", "vd", "ve", "vf", "vg", "vh", "~~", "~!",
+    "long", "outer", "toks", "toksdef", "va", "vb", "vc", "vd", "ve", "vf", "vg", "vh", "~~", "~!",
 ];
 /// The last two names are the active characters ~ and ! (the prelude gives them category 13); vmh reports
 /// an active character c as "~c".
-const FIRST_ACTIVE: usize = 34;
-const FIRST_USER: usize = 26;
+const FIRST_ACTIVE: usize = 36;
+const FIRST_USER: usize = 28;
 
 fn id(name: &str) -> i64 {
     NAMES.iter().position(|n| *n == name).map(|i| i as i64 + 1).expect("name")
@@ -132,6 +132,7 @@ enum Guess {
     Macro { pre: Vec<T>, delims: Vec<Vec<T>> }, // one entry per parameter: its delimiter (empty = undelimited)
     CDef,
     ChDef,
+    TDef,
     Alias, // \let to something
     Digits,
 }
@@ -150,12 +151,12 @@ struct G<'a> {
 }
 
 /// Statement mixes.  Columns: chars, group, def, call, assignment, countdef, chardef, the, conditional,
-/// expandafter, noexpand, let, relax, stray brace.
-const PROFILES: [[u32; 14]; 4] = [
-    [8, 3, 4, 5, 6, 2, 1, 3, 4, 1, 1, 1, 1, 0],  // general
-    [3, 9, 2, 3, 12, 1, 0, 7, 2, 0, 0, 2, 0, 0], // scoping: few registers, small values, many groups and prefixes
-    [5, 2, 8, 12, 2, 0, 0, 1, 2, 3, 1, 2, 0, 0], // macros
-    [6, 2, 2, 3, 3, 0, 0, 2, 14, 1, 0, 1, 0, 1], // conditionals
+/// expandafter, noexpand, let, relax, stray brace, token list registers.
+const PROFILES: [[u32; 15]; 4] = [
+    [8, 3, 4, 5, 6, 2, 1, 3, 4, 1, 1, 1, 1, 0, 3],  // general
+    [3, 9, 2, 3, 12, 1, 0, 7, 2, 0, 0, 2, 0, 0, 4], // scoping: few registers, small values, many groups and prefixes
+    [5, 2, 8, 12, 2, 0, 0, 1, 2, 3, 1, 2, 0, 0, 3], // macros
+    [6, 2, 2, 3, 3, 0, 0, 2, 14, 1, 0, 1, 0, 1, 2], // conditionals
 ];
 
 const LETTERS: &[u8] = b"abcxyz";
@@ -385,6 +386,9 @@ impl G<'_> {
         let n = 1 + self.rng.below(3);
         for _ in 0..n {
             if np > 0 && self.rng.chance(1, 2) {
+                if self.rng.chance(1, 4) && !matches!(out.last(), Some(T::Sp) | Some(T::Cs(_)) | None) {
+                    out.push(T::Sp);
+                }
                 out.push(T::Pm(1 + self.rng.below(np as u64) as u8));
             } else {
                 self.stmt(out, depth + 1, target, true);
@@ -421,6 +425,13 @@ impl G<'_> {
                     out.push(T::Lb);
                     out.push(T::Rb);
                 }
+                2 => {
+                    // a group that starts with a space: substituted after a space in a body it gives two
+                    // space tokens in a row, which no source line can contain
+                    out.extend([T::Lb, T::Sp]);
+                    self.chars(out);
+                    out.push(T::Rb);
+                }
                 3 if !dl.is_empty() => {} // empty delimited argument
                 4 => {
                     out.push(T::Lb);
@@ -448,6 +459,56 @@ impl G<'_> {
                 out.push(T::Rb);
             }
             out.extend(dl.iter().cloned());
+        }
+    }
+    /// a token list variable: \toks0 / \toks1 or a \toksdef alias
+    fn tokvar(&mut self, out: &mut Vec<T>, maxuser: usize) {
+        let tdefs: Vec<usize> = (0..maxuser.min(8)).filter(|i| self.guess[*i] == Guess::TDef).collect();
+        if !tdefs.is_empty() && self.rng.chance(1, 3) {
+            let i = *self.rng.pick(&tdefs);
+            out.push(self.user(i));
+        } else {
+            out.push(self.cs("toks"));
+            out.push(T::Ch(b'0' + self.rng.below(2) as u8));
+            out.push(T::Sp);
+        }
+    }
+    fn toks(&mut self, out: &mut Vec<T>, depth: u32, maxuser: usize, in_body: bool) {
+        match self.rng.below(8) {
+            0..=2 => {
+                // assignment of a balanced text (it is stored unexpanded and runs when \the delivers it)
+                self.prefix(out);
+                self.tokvar(out, maxuser);
+                if matches!(out.last(), Some(T::Cs(_))) && self.rng.chance(1, 2) || self.rng.chance(1, 2) {
+                    out.push(T::Ch(b'='));
+                }
+                if self.rng.chance(1, 10) {
+                    out.push(self.cs("expandafter")); // the brace is found by expanding
+                }
+                out.push(T::Lb);
+                self.block(out, depth, maxuser, in_body);
+                out.push(T::Rb);
+            }
+            3 => {
+                self.prefix(out);
+                self.tokvar(out, maxuser);
+                out.push(T::Ch(b'='));
+                self.tokvar(out, maxuser);
+            }
+            4 if maxuser > 0 => {
+                let i = self.rng.below(maxuser.min(8) as u64) as usize;
+                self.prefix(out);
+                out.push(self.cs("toksdef"));
+                out.push(self.user(i));
+                out.push(T::Ch(b'='));
+                out.push(T::Ch(b'0' + self.rng.below(2) as u8));
+                out.push(T::Sp);
+                self.guess[i] = Guess::TDef;
+            }
+            _ => {
+                out.push(self.cs("the"));
+                self.tokvar(out, maxuser);
+            }
         }
     }
     fn fi(&mut self) -> T {
@@ -616,13 +677,25 @@ impl G<'_> {
                         self.guess[ti] = Guess::Alias;
                     }
                     _ => {
-                        let si = self.rng.below(ti as u64) as usize;
-                        out.push(self.user(si));
-                        self.guess[ti] = self.guess[si].clone();
+                        // a source that is (probably) defined: \let to an undefined name is outside the model
+                        let defined: Vec<usize> = (0..ti).filter(|i| self.guess[*i] != Guess::Undef).collect();
+                        let si = if defined.is_empty() || self.rng.chance(1, 30) {
+                            self.rng.below(ti as u64) as usize
+                        } else {
+                            *self.rng.pick(&defined)
+                        };
+                        if self.guess[si] == Guess::Undef && !self.rng.chance(1, 10) {
+                            out.push(self.cs("relax"));
+                            self.guess[ti] = Guess::Alias;
+                        } else {
+                            out.push(self.user(si));
+                            self.guess[ti] = self.guess[si].clone();
+                        }
                     }
                 }
             }
             13 if !in_body => out.push(if self.rng.chance(1, 2) { T::Lb } else { T::Rb }),
+            14 => self.toks(out, depth, maxuser, in_body),
             _ => out.push(self.cs("relax")),
         }
     }
